@@ -250,6 +250,14 @@ package stdlib
 // durationformat reads its argument as a plain base-10 integer number of seconds
 //@ func kfDurationFormat$1
 //@   ensures !int_ok(app((*args)[0], context)) ==> result == "<BAD-TYPE>"
+//@   assert at "return ErrorNum" : !int_ok(app((*args)[0], context))
+//@   assert at "return (time.Duration(secs) * time.Second).String()" : secs == atoi(app((*args)[0], context))
+// timeformat reads its argument as unix seconds: every base-10 int64 is accepted with its own
+// value, anything else yields the error marker
+//@ func kfTimeFormat$1
+//@   ensures [error-marker] !int_ok(app((*args)[0], context)) ==> result == "<BAD-TYPE>"
+//@   assert at "return ErrorNum" : !int_ok(strUnixTime)
+//@   assert at "t := time.Unix(unixTime, 0).In(tz)" : strUnixTime == app((*args)[0], context) && unixTime == atoi(strUnixTime)
 
 // ---- C11: logic helpers over truthiness ("1" / "", truthy = non-blank) ----
 //@ pred truthy(s) := str_trim(s) != ""
